@@ -90,7 +90,7 @@ static void judge(int usable, int failed, int code, unsigned flags, int has_dest
     if (P == 1) {
         if (fault == 1) { char b[64]; snprintf(b, sizeof b, "write-fault|%s", fault_slot == 0 ? "dest+end" : fault_slot > 0 ? "other-operand" : "wild"); report(b); return; }
         if (fault) return;
-        if (has_dest && usable && D.obj > D.n * D.w && memcmp(D.p + D.n * D.w, D.prior + D.n * D.w, D.obj - D.n * D.w)) report("canary-after-dmax");
+        if (has_dest && D.obj > D.n * D.w && memcmp(D.p + D.n * D.w, D.prior + D.n * D.w, D.obj - D.n * D.w)) report("canary-after-dmax");
         return;
     }
     if (P == 2) { if (fault == 2) { char b[64]; snprintf(b, sizeof b, "read-fault|%s", fault_slot == 0 ? "dest+end" : fault_slot > 0 ? "source+end" : "wild"); report(b); } return; }
@@ -363,7 +363,7 @@ static void g_os(void) {
             CALL(r = getenv_s_(lp, dmax ? d : (extra ? d : NULL), dmax, name, BOSU));
             if (vl < dmax) exp_str = val; else if (dmax) exp_mustfail = 1;
             if (P == 6 && !fault && r == 0 && lp && *lp != vl) report("wrong-length-out");
-            judge(dmax > 0, r != 0, r > 0 ? r : 0, SP | SL, dmax > 0);
+            judge(dmax > 0, r != 0, r > 0 ? r : 0, SP | SL, dmax > 0 || extra);
         }
     }
     { begin("getenv_s", "unset-variable", "getenv-unset"); char *d = mkdest(8, 1, 0); size_t l = 0; int r = 0; CALL(r = getenv_s_(&l, d, 8, "VERIF_NOT_SET_ANYWHERE", BOSU)); judge(1, 0, 0, SP, 1); }
